@@ -344,9 +344,13 @@ func (t *fnTrans) lockOp(m Val, acquire bool, key string, pos token.Pos) {
 	t.usedLocks[stName+"."+ls.Field] = true
 	self := p.Ref
 	st := p.Typ.Underlying().(*types.Struct)
+	lockPkg := t.eng.typesPkg(ls.Pkg)
 	guardedVars := func() []*StateVar {
 		var vs []*StateVar
 		for _, g := range ls.Guards {
+			if strings.HasPrefix(g, "mapsof(") {
+				continue
+			}
 			for i := 0; i < st.NumFields(); i++ {
 				if st.Field(i).Name() == g {
 					vs = append(vs, t.fieldVar(p.Typ, i))
@@ -354,6 +358,33 @@ func (t *fnTrans) lockOp(m Val, acquire bool, key string, pos token.Pos) {
 			}
 		}
 		return vs
+	}
+	// whole map stores protected by the lock (contents of maps reachable from the guarded fields)
+	guardedMaps := func() []*StateVar {
+		var vs []*StateVar
+		for _, g := range ls.Guards {
+			if !strings.HasPrefix(g, "mapsof(") {
+				continue
+			}
+			ty := t.eng.resolveType(strings.TrimSuffix(strings.TrimPrefix(g, "mapsof("), ")"), lockPkg)
+			if ty == nil {
+				t.errorf("lock %s.%s: unknown map type in %s", ls.Type, ls.Field, g)
+				continue
+			}
+			mt, ok := ty.Underlying().(*types.Map)
+			if !ok {
+				t.errorf("lock %s.%s: %s is not a map type", ls.Type, ls.Field, g)
+				continue
+			}
+			a, b, c := t.mapVars(mt)
+			vs = append(vs, a, b, c)
+		}
+		return vs
+	}
+	havocMaps := func(tag string) {
+		for _, sv := range guardedMaps() {
+			t.set(sv.Name, t.fresh(sv.Name+tag, sv.Sort))
+		}
 	}
 	mkEnv := func(state, old *State) *Env {
 		e := &Env{t: t, st: state, old: old, vars: map[string]bound{}, pkg: t.eng.typesPkg(ls.Pkg)}
@@ -366,8 +397,7 @@ func (t *fnTrans) lockOp(m Val, acquire bool, key string, pos token.Pos) {
 			t.assume(t.wf(nv, sv.Typ))
 			t.set(sv.Name, fmt.Sprintf("(store %s %s %s)", t.get(t.cur, sv.Name), self, nv))
 		}
-		// everything reachable only under the lock (declared as heap regions in the invariant) is arbitrary too:
-		// the invariant is assumed over the current heap.
+		havocMaps("_lk")
 		env := mkEnv(t.cur, nil)
 		for _, c := range ls.Invariants {
 			t.assume(env.boolOf(c.Expr))
@@ -400,7 +430,8 @@ func (t *fnTrans) lockOp(m Val, acquire bool, key string, pos token.Pos) {
 	for name := range t.vars {
 		t.cur.m["atunlock:"+name] = t.get(t.cur, name)
 	}
-	// after release other goroutines may change the guarded fields
+	// after release other goroutines may change the guarded state
+	havocMaps("_ul")
 	for _, sv := range guardedVars() {
 		nv := t.fresh(sv.Name+"_ul", t.S.sortOf(sv.Typ))
 		t.assume(t.wf(nv, sv.Typ))
@@ -556,7 +587,9 @@ func (t *fnTrans) resolveMod(item string, env *Env) []modTarget {
 func (t *fnTrans) applyContract(fc *FuncContract, key string, sig *types.Signature, fn *ssa.Function, args []Val, argTys []types.Type, resTy types.Type, pos token.Pos) Val {
 	t.usedContracts[key] = fc
 	var pkg *types.Package
-	if fn != nil && fn.Pkg != nil {
+	if fc.Extern && fc.PkgPath != "" {
+		pkg = t.eng.typesPkg(fc.PkgPath)
+	} else if fn != nil && fn.Pkg != nil {
 		pkg = fn.Pkg.Pkg
 	} else if fc.PkgPath != "" {
 		pkg = t.eng.typesPkg(fc.PkgPath)
